@@ -130,7 +130,10 @@ func (m *runtimeContextManager) PushContext(ctx RuntimeContextDef) {
 	m.status = StatusLive
 	m.messageHandler = ctx.MessageHandler
 	m.parent = &parent
-	if ctx.GCPolicy == IsolateGCPolicy || ctx.HardLimits.Millis > 0 || ctx.HardLimits.Cpu > 0 || ctx.HardLimits.Memory > 0 {
+	if ctx.GCPolicy == IsolateGCPolicy || ctx.HardLimits.Millis > 0 || ctx.HardLimits.Cpu > 0 || ctx.HardLimits.Memory > 0 || ctx.RequiredFlags != 0 {
+		// A context that restricts what its code can do (limits, required flags)
+		// finalizes the values it marked before it ends: otherwise their
+		// finalizers would run later, outside the restrictions.
 		m.weakRefPool = luagc.NewDefaultPool()
 		m.gcPolicy = IsolateGCPolicy
 	} else {
